@@ -322,6 +322,15 @@ def write(detector, spec, salt=0, spec_odd=None, track=False):
         elif b == "data":
             if spec[b] == "flat":
                 detector.data["k0"] = xr.DataArray(np.arange(3, dtype=float) + step + float(salt), dims=["k"])
+            elif spec[b] == "swapped":
+                # the model REPLACES the container (as the load_detector model does through Detector.replace_data) instead
+                # of writing into it: the result must show the container the detector holds at the end
+                import copy
+
+                other = copy.deepcopy(detector)
+                other.data["k0"] = xr.DataArray(np.arange(3, dtype=float) + 10.0 * step + float(salt), dims=["k"])
+                other.data["swapped/k9"] = xr.DataArray(np.array([step, 7], dtype="int64"), dims=["s"])
+                detector.replace_data(other)
             elif spec[b] == "nested":
                 detector.data["grp/sub/k1"] = xr.DataArray(np.arange(4, dtype=float) * 2 + step + float(salt), dims=["m"])
                 detector.data["grp/k2"] = xr.DataArray(np.array([[1, 2], [3, 4 + step]], dtype="int64"), dims=["p", "q"])
